@@ -238,7 +238,10 @@ class Gen:
                 return call('is_error', self.expr(r.choice(['int', 'str', 'bool']), scope, d))
             if k < 0.93:
                 return call('has_value', self.expr('opt', scope, d), style=r.choice(['fn', 'method']))
-            return call('eq', self.expr('str', scope, d), self.expr('str', scope, d), style=self.style('eq'))
+            # comparisons of strings go through the library's derived operators (cmp based): same strict left-to-right order
+            # the derived operators evaluate BOTH operands even when the first is an error (model: the *_all primitives)
+            f = r.choice(['eq', 'eq', 'ne', 'lt', 'le', 'gt', 'ge'])
+            return call(f, self.expr('str', scope, d), self.expr('str', scope, d), style=self.style(f), coqname=(None if f == 'eq' else f + '_all'))
         if ty == 'str':
             k = r.random()
             if k < 0.4:
